@@ -845,7 +845,7 @@ pub(crate) fn parse_formatted_number(
         if let Some(p) = value.strip_prefix(&format!("-{currency}")) {
             let (f, options) = parse_number(p.trim(), decimal_separator, group_separator)?;
             if options.is_scientific {
-                return Ok((f, Some(scientific_format.to_string())));
+                return Ok((-f, Some(scientific_format.to_string())));
             }
             if options.decimal_digits > 0 {
                 return Ok((-f, Some(format!("{currency}#,##0.00"))));
